@@ -157,6 +157,8 @@ def t_len(v):
             return t_sum([t_len(a) for a in v.args])
         if v.op == "i2osp":
             return v.args[1]
+        if v.op == "bytes_of_list":
+            return len(v.args)
         if v.op in ("H", "HMAC"):
             return t_digest_size(v.args[0])
         if v.op == "repeat":
@@ -277,6 +279,12 @@ def t_eq(a, b):
         return True
     x, y = sorted((a, b), key=_ord_key)
     return Term("eq", (x, y), "bool")
+
+
+def t_xor(a, b):
+    """byte-wise xor of two byte strings (commutative: operands in canonical order)"""
+    x, y = sorted((a, b), key=_ord_key)
+    return Term("xor", (x, y), "bytes")
 
 
 def t_lt(a, b):
